@@ -130,7 +130,7 @@ func worldShape(w *World, r *Result) string {
 		strings.Join(w.Flags, ","), r.Exit, len(r.Ops), nsites, short(shaStr(r.Stdout)))
 }
 
-var envNoise = [][2]string{{"LANG", "de_DE.UTF-8"}, {"LC_ALL", "C"}, {"TZ", "Asia/Tokyo"}, {"NO_COLOR", "1"}, {"TERM", "dumb"}, {"TERM", "xterm-256color"},
+var envNoise = [][2]string{{"LANG", "de_DE.UTF-8"}, {"LC_ALL", "C"}, {"TZ", "Asia/Tokyo"}, {"TZ", "America/New_York"}, {"TZ", "Australia/Lord_Howe"}, {"NO_COLOR", "1"}, {"TERM", "dumb"}, {"TERM", "xterm-256color"},
 	{"USER", "someone"}, {"COLUMNS", "132"}, {"LINES", "50"}, {"GOPATH", "/nonexistent/gopath"}, {"GOFLAGS", "-mod=mod -trimpath"},
 	{"EDITOR", "vi"}, {"GOMAXPROCS", "1"}, {"GOMAXPROCS", "3"}, {"GODEBUG", "randautoseed=0"}, {"CI", "true"}, {"DEBUG", "1"}, {"GONTAINER_DEBUG", "1"}, {"FORCE_COLOR", "1"}, {"CLICOLOR_FORCE", "1"}, {"HOME", "/nonexistent/home"}}
 
@@ -176,6 +176,11 @@ func twinsC08(src *choice.Src, w *World, envReads []string) (tw []*World, dims [
 		t.CwdSub = choice.Pick(src, "twin.cwd", []string{"x", "deep/er/still", "a b", "proj[1]", "we*rd", "q?", "back\\slash", "$HOME"})
 		t.CwdGo = src.Bool("twin.cwdgo")
 		add("cwd", t)
+	}
+	{
+		t := w.Clone()
+		t.SlowSeed = seed64(src, "twin.slow") | 1
+		add("latency", t)
 	}
 	{
 		t := w.Clone()
